@@ -24,6 +24,8 @@ def handle (α : Type) [Arith α] [Wire α] : List Sexp → Sexp
       let o : Milp.Options α := { mipGap := gap, timeLimitNs := limit }
       if which == "milp-with" then (Milp.solveMilpWith lm o (fun _ => out)).enc lm.vars
       else if which == "milp-with-fixed" then (Milp.solveMilpWithFixed lm o (fun _ => out)).enc lm.vars
+      else if which == "builder-microlp" then ((Milp.Microlp.build gap limit).solve lm (fun _ => out)).enc lm.vars
+      else if which == "builder-microlp-fixed" then ((Milp.Microlp.build gap limit).solveFixed lm (fun _ => out)).enc lm.vars
       else app "err" [.atom "bad-request"]
     | _, _, _, _ => app "err" [.atom "decode"]
   | _ => app "err" [.atom "bad-request"]
